@@ -225,6 +225,10 @@ type skelCfg struct {
 	guards []string
 	// classify a return statement's text
 	fatalMark string
+	// right-hand sides (prefix match) recorded as lookups, e.g. map reads that decide a branch
+	lookups []string
+	// assignment targets recorded on exact match (e.g. a captured local)
+	assignsExact []string
 }
 
 type walker struct {
@@ -314,8 +318,29 @@ func (w *walker) stmts(list []ast.Stmt, guard string) {
 
 func (w *walker) assign(s *ast.AssignStmt, guard, errcls string) {
 	w.calls(s, guard, errcls)
+	for _, r := range s.Rhs {
+		t := src(r)
+		for _, a := range w.cfg.lookups {
+			if strings.HasPrefix(t, a) {
+				w.out = append(w.out, fmt.Sprintf("lookup %s guard=[%s]", t, guard))
+			}
+		}
+	}
 	for i, l := range s.Lhs {
 		t := src(l)
+		exact := false
+		for _, a := range w.cfg.assignsExact {
+			if t == a {
+				exact = true
+			}
+		}
+		if exact {
+			rhs := ""
+			if i < len(s.Rhs) {
+				rhs = src(s.Rhs[i])
+			}
+			w.out = append(w.out, fmt.Sprintf("assign %s = %s guard=[%s]", t, rhs, guard))
+		}
 		for _, a := range w.cfg.assigns {
 			if strings.HasPrefix(t, a) {
 				rhs := ""
